@@ -11,6 +11,7 @@
 (c) js / css that contains its own end tag in any letter case must be refused, never emitted:
     the final document is parsed and the script/style element text must equal the source.
 """
+import html
 import random
 from html.parser import HTMLParser
 
@@ -26,7 +27,7 @@ RULE = (
 ASSUMPTIONS = [
     "attribute names are restricted to characters that can form an HTML attribute name (lower-case for html.parser)",
     "appending to/with bool or None is not defined by the statement and is not generated",
-    "SafeString values are only generated from characters that need no escaping",
+    "SafeString values are only generated from text that is already valid escaped attribute content (they are emitted verbatim by design)",
 ]
 
 NAMES = ["class", "id", "data-x", "@click", ":href", "x.y", "#ref", "é", "hidden", "style", "a_b"]
@@ -34,8 +35,11 @@ VALUES = [
     "a", "b c", "", " ", "x\"y", "it's", "<b>", "a&b", "&amp;", "&lt;script&gt;", "\"><script>alert(1)</script>", "' onmouseover='x", "é ü", "日本",
     "a\nb", "a\tb", "  lead", "trail  ", "`", "=", "/>", "\\", "{{ x }}", "{% y %}", "a=\"b\"", "\x00z", "--", "<!--",
 ]
-SAFE_VALUES = ["s1", "s-2 s3", "safe_é", ""]
-NUMBERS = [0, 5, -1, 1.5]
+# SafeString values are emitted verbatim, so they are drawn from text that already is valid escaped attribute content;
+# "&amp;" / "&lt;script&gt;" / "a" also occur as plain strings in VALUES (equal by ==, different by type)
+SAFE_VALUES = ["s1", "s-2 s3", "safe_é", "", "&amp;", "&lt;script&gt;", "a", "x &quot;q&quot; &#x27;"]
+# 1 == 1.0 == True and 0 == 0.0 == False compare (and hash) equal but render differently
+NUMBERS = [0, 5, -1, 1.5, 1, 1.0, 0.0]
 
 
 class P(HTMLParser):
@@ -163,7 +167,7 @@ def expected_attrs(env, case):
     for k, v in final.items():
         if v is None or v is False:
             continue
-        out.append((k.lower(), None if v is True else str(v)))
+        out.append((k.lower(), None if v is True else html.unescape(str(v)) if isinstance(v, env.SafeString) else str(v)))
     return sorted(out, key=lambda kv: (kv[0], kv[1] is None, kv[1] or ""))
 
 
